@@ -73,8 +73,8 @@ Section Sub.
     In s (byref E cf v call N hsup t) -> In s (subvalues v).
   Proof.
     induction v as [z | | z | l | k l xs IH | k l kvs IH | c l fs IH] using lv_ind';
-      intros call N hsup t; induction t as [| lk | | | t' IHt | o t' IHt | t' IHt | ts IHts | o kt IHk vt IHv | c0 | us IHus] using ty_ind';
-      intros s Hs; simpl in Hs; try contradiction;
+      intros call N hsup t; induction t as [| lk | | | t' IHt | o t' IHt | t' IHt | ts IHts | o kt IHk vt IHv | c0 | tw IHw | us IHus] using ty_ind';
+      intros s Hs; try (apply IHw; exact Hs; fail); simpl in Hs; try contradiction;
       try (apply in_root in Hs; subst s; apply subvalues_self; fail);
       try (apply IHt; exact Hs; fail);
       try (destruct Hs as [Hs | []]; subst s; apply subvalues_self; fail).
@@ -122,6 +122,7 @@ Fixpoint anyfree (t: ty) : bool :=
   | TOpt t' | TSeq _ t' | TTupV t' => anyfree t'
   | TTup ts => forallb anyfree ts
   | TMap _ kt vt => anyfree kt && anyfree vt
+  | TWrap t' => anyfree t'
   | TUnion ts => forallb anyfree ts
   end.
 
@@ -151,8 +152,8 @@ Section Default.
     anyfree t = true -> byref E cf v None [] hsup t = [].
   Proof.
     induction v as [z | | z | l | k l xs IH | k l kvs IH | c l fs IH] using lv_ind';
-      intros hsup t; induction t as [| lk | | | t' IHt | o t' IHt | t' IHt | ts IHts | o kt IHk vt IHv | c0 | us IHus] using ty_ind';
-      intros Ha; simpl in Ha; try discriminate Ha; try reflexivity;
+      intros hsup t; induction t as [| lk | | | t' IHt | o t' IHt | t' IHt | ts IHts | o kt IHk vt IHv | c0 | tw IHw | us IHus] using ty_ind';
+      intros Ha; try (apply IHw; exact Ha; fail); simpl in Ha; try discriminate Ha; try reflexivity;
       try (simpl; apply IHt; exact Ha; fail).
     - simpl. apply flat_map_nil. eapply Forall_impl; [| exact IH]. intros x Hx. apply Hx. exact Ha.
     - simpl. apply flat_map_nil. eapply Forall_impl; [| exact IH]. intros x Hx. apply Hx. exact Ha.
@@ -199,8 +200,8 @@ Section DefaultUnpack.
   Lemma anyref_anyfree_nil : forall w t, anyfree t = true -> anyref E w t = [].
   Proof.
     induction w as [z | | z | l | k l xs IH | k l kvs IH | c l fs IH] using lv_ind';
-      intros t; induction t as [| lk | | | t' IHt | o t' IHt | t' IHt | ts IHts | o kt IHk vt IHv | c0 | us IHus] using ty_ind';
-      intros Ha; simpl in Ha; try discriminate Ha;
+      intros t; induction t as [| lk | | | t' IHt | o t' IHt | t' IHt | ts IHts | o kt IHk vt IHv | c0 | tw IHw | us IHus] using ty_ind';
+      intros Ha; try (apply IHw; exact Ha; fail); simpl in Ha; try discriminate Ha;
       try (rewrite anyref_union; apply pick_nil with (p := anyfree); [exact IHus | exact Ha]; fail);
       try reflexivity;
       try (simpl; apply IHt; exact Ha; fail).
@@ -229,8 +230,8 @@ Qed.
 Lemma anyref_sub E : forall w t s, In s (anyref E w t) -> In s (subvalues w).
 Proof.
   induction w as [z | | z | l | k l xs IH | k l kvs IH | c l fs IH] using lv_ind';
-    intros t; induction t as [| lk | | | t' IHt | o t' IHt | t' IHt | ts IHts | o kt IHk vt IHv | c0 | us IHus] using ty_ind';
-    intros s Hs;
+    intros t; induction t as [| lk | | | t' IHt | o t' IHt | t' IHt | ts IHts | o kt IHk vt IHv | c0 | tw IHw | us IHus] using ty_ind';
+    intros s Hs; try (apply IHw; exact Hs; fail);
     try (rewrite anyref_union in Hs; revert Hs; apply pick_in with (Q := fun s => In s (subvalues _)); exact IHus);
     simpl in Hs; try contradiction;
     try (apply in_root in Hs; subst s; apply subvalues_self; fail);
@@ -271,14 +272,15 @@ Fixpoint optfree (t: ty) : bool :=
   | TSeq _ t' | TTupV t' => optfree t'
   | TTup ts => forallb optfree ts
   | TMap _ kt vt => optfree kt && optfree vt
+  | TWrap t' => optfree t'
   | TUnion ts => forallb optfree ts
   end.
 Definition optfree_env (E: env) : Prop := forall c, forallb optfree (E.(e_ct) c).(c_fields) = true.
 
 Lemma ident_conv_free E N t : optfree t = true -> ident E N t = conv_free E N t.
 Proof.
-  unfold ident. induction t as [| k | | | t IHt | o t IHt | t IHt | ts IHts | o t1 IHt1 t2 IHt2 | c0 | us IHus] using ty_ind';
-    intros H; simpl in H; try discriminate H; simpl; try reflexivity.
+  unfold ident. induction t as [| k | | | t IHt | o t IHt | t IHt | ts IHts | o t1 IHt1 t2 IHt2 | c0 | tw IHw | us IHus] using ty_ind';
+    intros H; simpl in H; try discriminate H; simpl; try reflexivity; try (apply IHw; exact H; fail).
   - destruct (e_lp E k); reflexivity.
   - unfold seq_expr. rewrite <- (IHt H). destruct (is_id (cp E N false t)).
     + destruct (inN N o); [reflexivity |]. destruct (origin_eqb o OList); reflexivity.
@@ -312,8 +314,8 @@ Section OptFree.
     optfree t = true -> byref E (ident E) v call N hsup t = byref E (conv_free E) v call N hsup t.
   Proof.
     induction v as [z | | z | l | k l xs IH | k l kvs IH | c l fs IH] using lv_ind';
-      intros call N hsup t; induction t as [| lk | | | t' IHt | o t' IHt | t' IHt | ts IHts | o kt IHk vt IHv | c0 | us IHus] using ty_ind';
-      intros Ha; simpl in Ha; try discriminate Ha; try reflexivity.
+      intros call N hsup t; induction t as [| lk | | | t' IHt | o t' IHt | t' IHt | ts IHts | o kt IHk vt IHv | c0 | tw IHw | us IHus] using ty_ind';
+      intros Ha; try (apply IHw; exact Ha; fail); simpl in Ha; try discriminate Ha; try reflexivity.
     - simpl. rewrite (ident_conv_free E N t' Ha). destruct (inN N o && conv_free E N t'); [reflexivity |].
       apply flat_map_ext_Forall. eapply Forall_impl; [| exact IH]. intros x Hx. apply Hx. exact Ha.
     - simpl. apply flat_map_ext_Forall. eapply Forall_impl; [| exact IH]. intros x Hx. apply Hx. exact Ha.
